@@ -40,6 +40,12 @@ def f6(z: float = 1.0, w: Optional[float] = 4.0, *, u: int | None, v: "str | Non
     return ("f6", z, w, u, v)
 
 
+def f7(o: Optional[float] = 0.5, n: Optional[int] = 3, *, s: Optional[str] = "d"):
+    """Optional parameters whose default is not None: an explicit null is a given value."""
+    CALLS.append(("f7", dict(o=o, n=n, s=s)))
+    return ("f7", o, n, s)
+
+
 class K1:
     """A class with two methods."""
 
@@ -68,6 +74,7 @@ PARAMS = {
     "f5": [("seq", None, "[3, 4]", [3, 4]), ("mode", None, "b", "b"), ("table", None, '{"k": 2}', {"k": 2})],
     # fifth field: the value as a config writes it when that differs from the converted value (an int for a float parameter)
     "f6": [("z", 1.0, "1", 1.0, 1), ("w", 4.0, "4", 4.0, 4), ("u", None, "3", 3), ("v", None, "txt", "txt")],
+    "f7": [("o", 0.5, "null", None), ("n", 3, "null", None), ("s", "d", "null", None)],
     "K1.__init__": [("p", REQUIRED, "4", 4), ("q", 2, "6", 6)],
     "K1.m1": [("r", 1, "8", 8)],
     "K1.m2": [("s", REQUIRED, "word", "word"), ("t", None, "5", 5)],
